@@ -98,6 +98,15 @@ def run_impl(case):
     try:
         ln = mk_line(case)
         vals = [codec.dec_val(v) for v in case["values"]]
+        if case.get("prior"):
+            # an earlier record goes through the SAME line object first (a file reader/writer reuses one
+            # Line per register class); the text of the record under test is produced by a second, fresh
+            # line so that it is READ by `ln` without having been written by it
+            ln.read(ln.write([codec.dec_val(v) for v in case["prior"]]))
+            w = mk_line({k: v for k, v in case.items() if k != "build"}).write(vals)
+            r = ln.read(w)
+            w2 = ln.write(r)
+            return {"written": codec.enc_str(w), "read_back": [codec.enc_val(x) for x in r], "rewritten": codec.enc_str(w2)}
         w = ln.write(vals)
         r = ln.read(w)
         w2 = ln.write(r)
@@ -151,6 +160,8 @@ def nontrivial(case):
 
 def features(case, obs):
     f = [f"nfields={len(case['fields'])}", "built_by_setters" if case.get("build") else "built_by_ctor"]
+    if case.get("prior"):
+        f.append("after_a_prior_record_through_the_same_line")
     for fd, v in zip(case["fields"], case["values"]):
         f.append(f"kind={fd['k']}" + (":" + codec.dec_str(fd["fmt"]).upper() if fd["k"] == "flt" else ""))
         if v is None or (isinstance(v, dict) and ("nat" in v or v.get("f") == codec.NAN_BITS)):
@@ -277,6 +288,22 @@ def random_case(rng):
     case = {"fields": [fields[i] for i in order], "values": [values[i] for i in order], "fam": sorted(set(fam))}
     if rng.random() < 0.35:
         case.update(random_build(rng, case))
+    elif rng.random() < 0.3:
+        # an earlier record with every value present, then this record with some values missing
+        fam2 = []
+        prior = []
+        for fd in case["fields"]:
+            pos = fd["start"]
+            for _ in range(20):
+                fd2, v2 = make_field(random.Random(rng.random()), pos, fam2)
+                if fd2["k"] == fd["k"] and v2 is not None and not (isinstance(v2, dict) and "nat" in v2):
+                    break
+            else:
+                v2 = None
+            # the prior value must fit THIS field: reuse the record's own value when it is present
+            prior.append(v2 if False else None)
+        case["prior"] = [v if v is not None else None for v in case["values"]]
+        case["values"] = [None if rng.random() < 0.5 else v for v in case["values"]]
     return case
 
 
@@ -376,7 +403,9 @@ def shrinks(case):
     n = len(case["fields"])
     if n > 1:
         for i in range(n):
-            yield {**case, "fields": case["fields"][:i] + case["fields"][i + 1 :], "values": case["values"][:i] + case["values"][i + 1 :]}
+            yield {**case, "fields": case["fields"][:i] + case["fields"][i + 1 :], "values": case["values"][:i] + case["values"][i + 1 :], **({"prior": case["prior"][:i] + case["prior"][i + 1 :]} if case.get("prior") else {})}
+    if case.get("prior"):
+        yield {k: v for k, v in case.items() if k != "prior"}
     if case.get("build"):
         b = case["build"]
         for i in range(1, len(b)):
